@@ -2,7 +2,6 @@ package yqlib
 
 import (
 	"fmt"
-	"strconv"
 	"strings"
 	"time"
 )
@@ -109,11 +108,11 @@ func subtractScalars(context Context, target *CandidateNode, lhs *CandidateNode,
 		target.Tag = lhs.Tag
 		target.Value = formatInt64(format, result)
 	} else if (lhsTag == "!!int" || lhsTag == "!!float") && (rhsTag == "!!int" || rhsTag == "!!float") {
-		lhsNum, err := strconv.ParseFloat(lhs.Value, 64)
+		lhsNum, err := parseSortableNumber(lhs)
 		if err != nil {
 			return err
 		}
-		rhsNum, err := strconv.ParseFloat(rhs.Value, 64)
+		rhsNum, err := parseSortableNumber(rhs)
 		if err != nil {
 			return err
 		}
